@@ -1,0 +1,41 @@
+//go:build verif
+
+package client
+
+import (
+	"errors"
+	"time"
+
+	"github.com/feichai0017/NoKV/pb"
+)
+
+// NewWithStoreClients builds a Client over caller-supplied TinyKv clients
+// (store id -> client) instead of dialing gRPC endpoints. It exists for the
+// deterministic-simulation harness under /verif, which plugs in in-process
+// shims that call the target store's kv.Service directly and inject RPC
+// faults. Everything else (routing cache, retries, 2PC) is the shipped code.
+func NewWithStoreClients(stores map[uint64]pb.TinyKvClient, resolver RegionResolver, maxRetries int) (*Client, error) {
+	if len(stores) == 0 {
+		return nil, errors.New("client: at least one store client required")
+	}
+	if resolver == nil {
+		return nil, errors.New("client: region resolver required")
+	}
+	conns := make(map[uint64]*storeConn, len(stores))
+	for id, c := range stores {
+		if id == 0 || c == nil {
+			return nil, errors.New("client: invalid store client")
+		}
+		conns[id] = &storeConn{addr: "in-process", client: c}
+	}
+	if maxRetries <= 0 {
+		maxRetries = 5
+	}
+	return &Client{
+		stores:             conns,
+		regions:            make(map[uint64]*regionState),
+		regionResolver:     resolver,
+		routeLookupTimeout: 2 * time.Second,
+		maxRetries:         maxRetries,
+	}, nil
+}
